@@ -94,14 +94,14 @@ Print Assumptions C18_copy.
    error types … *)
 Theorem C18_copy_unreplaced_plain : forall L target c f s j,
     field_stmt L target c false f = GOk s j ->
-    (forall pkg name ms, f_ty f <> TNamed pkg name ms) ->
+    (forall pkg name u ms, f_ty f <> TNamed pkg name u ms) ->
     is_call s = false.
 Proof. exact unreplaced_not_call. Qed.
 Print Assumptions C18_copy_unreplaced_plain.
 
 (* … none for foreign named types that have no DeepCopyAs / DeepCopyIntoAs method (time.Duration, time.Time, …) … *)
-Theorem C18_copy_foreign_named : forall L target c f pkg name ms s j,
-    f_ty f = TNamed pkg name ms ->
+Theorem C18_copy_foreign_named : forall L target c f pkg name u ms s j,
+    f_ty f = TNamed pkg name u ms ->
     bytes_eqb pkg target = false ->
     no_as_methods ms = true ->
     field_stmt L target c false f = GOk s j ->
@@ -110,8 +110,8 @@ Proof. exact foreign_plain_named_assigned. Qed.
 Print Assumptions C18_copy_foreign_named.
 
 (* … and a replaced field of a named type is converted by the replacement's DeepCopyIntoAs *)
-Theorem C18_copy_replaced_named : forall L target c f pkg name ms s j,
-    f_ty f = TNamed pkg name ms ->
+Theorem C18_copy_replaced_named : forall L target c f pkg name u ms s j,
+    f_ty f = TNamed pkg name u ms ->
     field_stmt L target c true f = GOk s j ->
     s = SCallInto (f_name f) dc_into_name.
 Proof. exact replaced_named_into. Qed.
@@ -249,3 +249,219 @@ Example C18_example_errors :
   generate_pkg last_segment w_target all_fixed
     [mk_tinput (bs "k") true [(bs "k", RIdent (Some ([], bs "int")))] None [] []; ex_ti] [] [] = OutErr EMustStruct.
 Proof. split; vm_compute; reflexivity. Qed.
+
+(* ================================================================================================================
+   The copy-field helper is modelled twice (here, and in Model/DeepCopy.v for C17).  Through the adapter of
+   Model/Generators.v the two models are one: same statement for every field of the common domain, partialstruct's
+   Skip / FieldContext callbacks being the only difference; hence C17's heap-level theorems hold of the DeepCopyAs /
+   DeepCopyIntoAs bodies generated here (C18_copy above is stated on a simple value model only).
+
+   [fty17] translates a field type (defined on basic, any / interface, error, named types, slices and maps of scalars —
+   C17's grammar; pointer and array fields and containers of non-scalars are outside it), [msig17] a method signature
+   (DeepCopyAs -> DeepCopy, DeepCopyIntoAs -> DeepCopyInto: the helper is parametric in the two names), [stmt17] a
+   statement; [agrees target G t]: C17's type graph G declares a same-package named type t with the kind and the
+   explicit methods C18's description carries (a named interface type has none).
+   ================================================================================================================ *)
+Require Import Gengo.Model.Generators Gengo.Proofs.Generators.
+
+Theorem Copy_c17_is_c18_field_stmt : forall L target c, fx_errnil c = true ->
+  forall G f ft,
+    fty17 L target c (f_ty f) = Some ft ->
+    agrees target G (f_ty f) ->
+    exists s18 i s17 dep,
+      field_stmt L target c false f = GOk s18 i /\
+      DC.field_stmt DC.all_fixed G [] (f_name f) ft = Ok (s17, dep) /\
+      stmt17 s18 = s17.
+Proof. exact field_stmt_agree. Qed.
+Print Assumptions Copy_c17_is_c18_field_stmt.
+
+(* outside the common domain the statement depends on the top-level constructor only (the Go type switch) *)
+Theorem Copy_outside_common_domain : forall L target c f b,
+    fty17 L target c (f_ty f) = None ->
+    exists s i, field_stmt L target c b f = GOk s i /\
+      match f_ty f with
+      | TSlice _ => exists o, s = SCopySlice (f_name f) o
+      | TMap _ _ => exists o, s = SCopyMap (f_name f) o
+      | _ => s = SAssign (f_name f)
+      end.
+Proof. exact outside_domain_stmt. Qed.
+Print Assumptions Copy_outside_common_domain.
+
+(* the callbacks, exactly: FieldContext is consulted inside `case *types.Named` only (error included) ... *)
+Theorem Copy_callback_ignored_unless_named : forall L target c f,
+    is_named_ty (f_ty f) = false -> field_stmt L target c true f = field_stmt L target c false f.
+Proof. exact callback_not_named. Qed.
+Print Assumptions Copy_callback_ignored_unless_named.
+
+(* ... where the context it returns selects in.F.DeepCopyIntoAs(&out.F) whatever the type is (InSamePkg is false in it:
+   no "always gen", no OnLocalDep, no map refinement); Skip removes the omitted fields before the helper sees them
+   (C18_copy / gen_stmts_loop_spec).  C17's model reads the same statement off a struct whose replaced fields have the
+   replacement type, a target-package struct or scalar type ([field17], [agrees_field]). *)
+Theorem Copy_callback_forces_into : forall L target c f,
+    is_named_ty (f_ty f) = true ->
+    field_stmt L target c true f = GOk (SCallInto (f_name f) dc_into_name) [].
+Proof. exact callback_named. Qed.
+Print Assumptions Copy_callback_forces_into.
+
+(* the whole body of DeepCopyIntoAs is C17's fields_copy of the struct that partialstruct emits *)
+Theorem C18_stmts_are_c17_fields_copy : forall L target c, fx_errnil c = true ->
+  forall ti g i fs G cfs,
+    generate_type L target c ti = TGen g i ->
+    ti_under ti = Some fs ->
+    fields17 L target c (replace_map (ti_replace ti) []) (filter (keep (ti_omit ti)) fs) = Some cfs ->
+    (forall f, In f fs -> keep (ti_omit ti) f = true -> agrees_field target G (replace_map (ti_replace ti) []) f) ->
+    map fst cfs = map f_name (filter (keep (ti_omit ti)) fs) /\
+    exists deps, DC.fields_copy DC.all_fixed G [] cfs = Ok (map stmt17 (g_stmts g), deps).
+Proof. exact stmts_agree. Qed.
+Print Assumptions C18_stmts_are_c17_fields_copy.
+
+(* TRANSFER.  DeepCopyAs on C17's heap ([deep_copy_as_heap]: nil -> nil; out := new(Origin); the generated statements,
+   executed by C17's exec_body; the origin value is represented by its retained fields — omitted ones are never
+   assigned, C18_copy).  G declares the generated struct with the translated fields and lies in C17's domain; every
+   method the body calls ([rec]: the replacement's or a same-package type's DeepCopyIntoAs; [ms]: the methods that
+   exist) copies faithfully ([rec_spec], the assumption C18's conv_for made informally).  Then for every well-typed
+   value: the result is deeply equal, every slice / map cell reachable from it is fresh, and no write through any of
+   them changes the source.  Scope = C17's heap model: cells hold scalars; named non-struct types are scalars. *)
+Theorem C18_copy_unshared : forall L target c, fx_errnil c = true ->
+  forall ti g i fs G ms rec bound cfs d tp,
+    generate_type L target c ti = TGen g i ->
+    ti_under ti = Some fs ->
+    fields17 L target c (replace_map (ti_replace ti) []) (filter (keep (ti_omit ti)) fs) = Some cfs ->
+    (forall f, In f fs -> keep (ti_omit ti) f = true -> agrees_field target G (replace_map (ti_replace ti) []) f) ->
+    Gengo.Proofs.DeepCopySem.dom G ->
+    DC.lookup G (g_name g) = Some d -> DC.d_kind d = DC.DStruct tp cfs ->
+    Gengo.Proofs.DeepCopySem.rec_spec G ms rec bound ->
+    callees_as_ok G ms cfs ->
+    forall h,
+      deep_copy_as_heap rec G ms g None h = Ok (None, h) /\
+      forall fin, Gengo.Proofs.DeepCopySem.wt_fields G h cfs fin -> Gengo.Proofs.DeepCopySem.depth_fields fin < bound ->
+        exists fout t,
+          deep_copy_as_heap rec G ms g (Some fin) h = Ok (Some (DC.VStruct fout), h ++ t) /\
+          DC.snapshot (h ++ t) (DC.VStruct fout) = DC.snapshot h (DC.VStruct fin) /\
+          (forall a, In a (DC.locs (DC.VStruct fout)) -> List.length h <= a < List.length (h ++ t)) /\
+          (forall a cell, In a (DC.locs (DC.VStruct fout)) ->
+             DC.snapshot (DC.write (h ++ t) a cell) (DC.VStruct fin) = DC.snapshot h (DC.VStruct fin)).
+Proof. exact copy_as_transfer. Qed.
+Print Assumptions C18_copy_unshared.
+
+(* ... and with NO assumption on any method when the body calls none (no replaced named field; same-package named
+   field types are interfaces): assignments and make+copy / make+range only *)
+Theorem C18_copy_unshared_plain : forall L target c, fx_errnil c = true ->
+  forall ti g i fs G cfs d tp,
+    generate_type L target c ti = TGen g i ->
+    ti_under ti = Some fs ->
+    fields17 L target c (replace_map (ti_replace ti) []) (filter (keep (ti_omit ti)) fs) = Some cfs ->
+    (forall f, In f fs -> keep (ti_omit ti) f = true -> agrees_field target G (replace_map (ti_replace ti) []) f) ->
+    Gengo.Proofs.DeepCopySem.dom G ->
+    DC.lookup G (g_name g) = Some d -> DC.d_kind d = DC.DStruct tp cfs ->
+    (forall f c0 args, In (f, DC.FNamed c0 args) cfs -> DC.is_iface (DC.lookup G c0) = true) ->
+    forall rec h fin, Gengo.Proofs.DeepCopySem.wt_fields G h cfs fin ->
+      exists fout t,
+        deep_copy_as_heap rec G [] g (Some fin) h = Ok (Some (DC.VStruct fout), h ++ t) /\
+        DC.snapshot (h ++ t) (DC.VStruct fout) = DC.snapshot h (DC.VStruct fin) /\
+        (forall a, In a (DC.locs (DC.VStruct fout)) -> List.length h <= a < List.length (h ++ t)) /\
+        (forall a cell, In a (DC.locs (DC.VStruct fout)) ->
+           DC.snapshot (DC.write (h ++ t) a cell) (DC.VStruct fin) = DC.snapshot h (DC.VStruct fin)).
+Proof. exact copy_as_unshared_plain. Qed.
+Print Assumptions C18_copy_unshared_plain.
+
+(* non-vacuity: scalar, omitted slice, slice, map of a foreign scalar, replaced struct field, error, same-package
+   interface — generated, translated, in C17's domain, executed on a heap *)
+Example C18_example_c17_view : exists g i,
+  generate_type last_segment w_target all_fixed ex17_ti = TGen g i /\ g_name g = bs "X" /\
+  map stmt17 (g_stmts g) =
+    [ DC.SAssign (bs "A"); DC.SCopySlice (bs "S") (bs "[]string"); DC.SCopyMap (bs "M") (bs "map[string]lib.Code");
+      DC.SCallInto (bs "I"); DC.SAssign (bs "E"); DC.SAssign (bs "N") ] /\
+  fields17 last_segment w_target all_fixed ex17_repl ex17_kept = Some ex17_cfs /\
+  helper17_body last_segment w_target all_fixed ex17_ti (bs "X") = Some (Ok (map stmt17 (g_stmts g))).
+Proof. exact ex17_generated. Qed.
+
+Example C18_example_c17_hypotheses :
+  (forall f, In f ex17_fields -> keep (ti_omit ex17_ti) f = true -> agrees_field w_target ex17_G ex17_repl f) /\
+  Gengo.Proofs.DeepCopySem.dom ex17_G.
+Proof. split; [exact ex17_agrees|exact ex17_dom]. Qed.
+
+Example C18_example_c17_copy :
+  match generate_type last_segment w_target all_fixed ex17_ti with
+  | TGen g _ =>
+      match deep_copy_as_heap (fun _ v _ h => Ok (v, h)) ex17_G [] g (Some ex17_fin) ex17_heap with
+      | Ok (Some v', h') =>
+          DC.snapshot h' v' = DC.snapshot ex17_heap (DC.VStruct ex17_fin) /\ DC.locs v' = [2; 3] /\
+          DC.snapshot (DC.write h' 2 (DC.CSlice [])) (DC.VStruct ex17_fin) = DC.snapshot ex17_heap (DC.VStruct ex17_fin)
+      | _ => False
+      end
+  | _ => False
+  end.
+Proof. exact ex17_copy. Qed.
+
+(* ---- partialstruct as an instance of the pipeline's abstract generator (Model/Generators.v): gengo.Execute's
+   per-package loop is [generate_pkg] on the dispatched declarations — an error from `must be struct type` / `need to
+   define type like …` is Execute's failure naming partialstruct and the package (consequence: Props/C02.v
+   C02_partialstruct_error_aborts), a panic is a dead process.  [print_gtype]: the text of the template, a parameter. ---- *)
+Require Gengo.Model.Pipeline Gengo.Proofs.GeneratorsPipe.
+
+Theorem C18_is_pipeline_generator :
+  forall c tracker tin print_gtype (E : Gengo.Model.Pipeline.env) p,
+    let g := partialstruct_gen c tracker tin print_gtype in
+    match generate_pkg (tracker p) (Gengo.Model.Pipeline.pk_path p) c
+            (map (tin p) (Gengo.Proofs.GeneratorsPipe.ps_called c tracker tin print_gtype E p)) [] [] with
+    | OutFile ts _ => Gengo.Model.Pipeline.go_out (Gengo.Model.Pipeline.gen_run E g p) = Gengo.Model.Pipeline.Done /\
+                      Gengo.Model.Pipeline.go_body (Gengo.Model.Pipeline.gen_run E g p) = print_gtypes print_gtype ts /\
+                      Gengo.Model.Pipeline.go_ignore (Gengo.Model.Pipeline.gen_run E g p) = false
+    | OutErr _ => Gengo.Model.Pipeline.go_out (Gengo.Model.Pipeline.gen_run E g p)
+                  = Gengo.Model.Pipeline.Failed (Gengo.Model.Pipeline.EGen (bs "partialstruct") (Gengo.Model.Pipeline.pk_path p))
+    | OutCrash => Gengo.Model.Pipeline.go_out (Gengo.Model.Pipeline.gen_run E g p) = Gengo.Model.Pipeline.Died
+    | OutGeneric => True
+    end.
+Proof. exact Gengo.Proofs.GeneratorsPipe.partialstruct_gen_run. Qed.
+Print Assumptions C18_is_pipeline_generator.
+
+(* ================================================================================================================
+   C18_types / C18_type_imports read types back through THIS file's own reading of Dumper.TypeLit ([type_lit]: a fixed
+   tracker function L, the expression as a tree).  It coincides with C11's model of the dumper (Model/TypeLit.v: the
+   tracker state threaded through the rendering, snippet.ID -> rawNamer.Name -> processName) on the common domain:
+   [view18] = what the dumper sees of a type of C18's grammar, [ast18] = C18's tree as C11's syntax tree, [wf18] =
+   type and basic names are identifiers, packages non-empty.  From any tracker state with non-empty names C11's model
+   returns, for EVERY L that names the mentioned foreign packages as the resulting state does, exactly C18's tree; the
+   state is extended (never rewritten) and the paths registered are the old ones plus the foreign packages mentioned.
+   Stated with C11's hypotheses on tracker and parser, and with both discharged (C03's tracker, C15's parser).
+   ================================================================================================================ *)
+Require Gengo.Model.GeneratorsTypes Gengo.Proofs.GeneratorsTypes Gengo.Proofs.TypeLit Gengo.Model.RenderStack.
+Module GT := Gengo.Model.GeneratorsTypes.
+
+Theorem C18_type_lit_is_c11 : forall pick parse_tref target can_backquote fx_tag c,
+  Gengo.Proofs.TypeLit.tracker_hyps pick -> Gengo.Proofs.TypeLit.parse_hyp parse_tref ->
+  forall t, GT.wf18 t = true -> forall e, GT.env_ok e ->
+    exists a e' suf,
+      Gengo.Model.TypeLit.type_lit pick parse_tref target can_backquote (fx_errlit c) fx_tag (GT.view18 t) e = Ok (a, e') /\
+      e' = e ++ suf /\ GT.env_ok e' /\
+      (forall p, In p (GT.foreign18 target t) -> Gengo.Model.TypeLit.alookup p e' <> None) /\
+      (forall p, Gengo.Model.TypeLit.alookup p e' <> None ->
+                 Gengo.Model.TypeLit.alookup p e <> None \/ In p (GT.foreign18 target t)) /\
+      (forall L, (forall p, In p (GT.foreign18 target t) -> L p = Gengo.Model.TypeLit.local_name_of p e') ->
+                 a = GT.ast18 (fst (type_lit L target c t))).
+Proof. exact Gengo.Proofs.GeneratorsTypes.type_lit_agree_c11. Qed.
+Print Assumptions C18_type_lit_is_c11.
+
+Theorem C18_type_lit_is_c11_concrete : forall pre std target can_backquote fx_tag c,
+  forall t, GT.wf18 t = true -> forall e, GT.env_ok e ->
+    exists a e' suf,
+      Gengo.Model.TypeLit.type_lit (Gengo.Model.RenderStack.pick_c03 pre std) Gengo.Model.RenderStack.parse_c15
+        target can_backquote (fx_errlit c) fx_tag (GT.view18 t) e = Ok (a, e') /\
+      e' = e ++ suf /\ GT.env_ok e' /\
+      (forall p, In p (GT.foreign18 target t) -> Gengo.Model.TypeLit.alookup p e' <> None) /\
+      (forall p, Gengo.Model.TypeLit.alookup p e' <> None ->
+                 Gengo.Model.TypeLit.alookup p e <> None \/ In p (GT.foreign18 target t)) /\
+      (forall L, (forall p, In p (GT.foreign18 target t) -> L p = Gengo.Model.TypeLit.local_name_of p e') ->
+                 a = GT.ast18 (fst (type_lit L target c t))).
+Proof. exact Gengo.Proofs.GeneratorsTypes.type_lit_agree_concrete. Qed.
+Print Assumptions C18_type_lit_is_c11_concrete.
+
+Example C18_example_type_lit_is_c11 :
+  let t := TMap (TBasic (bs "string")) (TNamed (bs "example.com/m/origin") (bs "Inner") UStruct []) in
+  GT.wf18 t = true /\ GT.env_ok [] /\
+  exists e', Gengo.Model.TypeLit.type_lit Gengo.Model.RenderStack.the_pick Gengo.Model.RenderStack.parse_c15
+               (bs "example.com/m/target") (fun _ => true) true true (GT.view18 t) []
+             = Ok (GT.ast18 (OMap (OIdent (bs "string")) (OSel (bs "origin") (bs "Inner"))), e')
+             /\ Gengo.Model.TypeLit.local_name_of (bs "example.com/m/origin") e' = bs "origin".
+Proof. exact Gengo.Proofs.GeneratorsTypes.type_lit_agree_example. Qed.
